@@ -10,6 +10,7 @@ import c11_core
 import c11_engine
 import x11dl
 import x11dr
+import x11fl
 import x11fw
 
 
@@ -45,6 +46,13 @@ def run(ctx, replay):
     ctx.overlay_tags.add("x11dr")
     _fresh_overlay(ctx)
     x11dr.run_tier(ctx)
+    # identical and related queries in flight: the coalesced lookup, its regroup on a cancelled leader, the resolution /
+    # zone / server slots and the probe pools (Flight.tla, Pool.tla) -- "it neither wedges nor fails other clients waiting
+    # on the same name ... no leaked limiter slots"; the private-copy / own-id classes belong to C10 (drift here)
+    x11fl.ONLY = "C11"
+    ctx.overlay_tags.add("x11fl")
+    _fresh_overlay(ctx)
+    x11fl.run_tier(ctx)
     if ctx.tier == "thorough":
         # (quick: the same driver runs in C12 and C19 for their families; the c11 family is judged in the thorough tier)
         ctx.overlay_tags.add("x11fw")
